@@ -64,19 +64,20 @@ func genSpec(r *lib.RNG, id string, last bool, maxBody int) *spec {
 	default:
 		s.Reason = reasons[s.Status]
 	}
-	if last && r.Chance(1, 3) {
-		switch r.Intn(3) {
-		case 0:
-			s.ClientProto = "HTTP/1.0"
-		case 1:
-			s.ClientConn = "close"
-		case 2:
-			s.ClientProto = "HTTP/1.0"
-			s.ClientConn = "keep-alive"
-		}
-	} else if r.Chance(1, 6) {
+	// HTTP/1.0 clients and Connection options at any position of the sequence (a reply after
+	// which the proxy closes simply makes the harness continue on a new connection)
+	switch r.Intn(12) {
+	case 0:
+		s.ClientProto = "HTTP/1.0"
+	case 1, 2:
+		s.ClientProto = "HTTP/1.0"
+		s.ClientConn = "keep-alive"
+	case 3:
+		s.ClientConn = "close"
+	case 4, 5:
 		s.ClientConn = "keep-alive"
 	}
+	_ = last
 	switch r.Intn(3) {
 	case 0:
 		s.ClientAE = "gzip"
@@ -119,7 +120,7 @@ func genSpec(r *lib.RNG, id string, last bool, maxBody int) *spec {
 		s.Framing = lib.Pick(r, []string{"cl", "cl", "chunked", "chunked", "chunked-trailers", "eof"})
 		s.Plain = lib.GenBody(r, maxBody)
 		s.Wire = s.Plain
-		if r.Chance(1, 5) && len(s.Plain) > 0 {
+		if r.Chance(1, 4) && len(s.Plain) > 0 {
 			s.Gzip = true
 			s.Wire = gz(s.Plain)
 			fs = append(fs, lib.Field{"Content-Encoding", "gzip"})
